@@ -214,6 +214,9 @@ pub struct WorldSpec {
     pub keys: Vec<String>,
     pub has_path_rewrite: bool,
     pub has_default_input: bool,
+    /// a key whose B units have A units of their own, if the world has one
+    #[serde(default)]
+    pub two_level: Option<String>,
 }
 
 /// Structured side of a world (kept by engines that need a field oracle, e.g. RoundTripSim).
@@ -566,6 +569,39 @@ pub fn gen_world(rng: &mut Rng, opts: &WorldGenOpts) -> (WorldSpec, WorldRecords
                 .collect();
         }
     }
+    // a two-level family: a C unit whose B units themselves have A units (on-demand splits can then be
+    // applied to the result of an on-demand split)
+    let mut two_level: Option<String> = None;
+    if rng.chance(1, 3) {
+        let pick: Vec<&str> = (0..4).map(|_| KEY_CHARS[rng.below(21)]).collect();
+        let (ab, cd) = (format!("{}{}", pick[0], pick[1]), format!("{}{}", pick[2], pick[3]));
+        let whole = format!("{}{}", ab, cd);
+        let ia = ensure_entry(rng, &mut sys, pick[0], n, &pos_pool, false);
+        let ib = ensure_entry(rng, &mut sys, pick[1], n, &pos_pool, false);
+        let iab = ensure_entry(rng, &mut sys, &ab, n, &pos_pool, false);
+        let icd = ensure_entry(rng, &mut sys, &cd, n, &pos_pool, false);
+        let iw = ensure_entry(rng, &mut sys, &whole, n, &pos_pool, false);
+        let distinct = {
+            let mut v = vec![ia, ib, iab, icd, iw];
+            v.sort();
+            v.dedup();
+            v.len() == 5
+        };
+        if distinct && sys.entries[iab].pos != pos(POS_NUM) && sys.entries[iw].pos != pos(POS_NUM) {
+            let r = |i: usize| WordRef { dic: 0, index: i, style: RefStyle::Num };
+            sys.entries[iab].split_type = "B".into();
+            sys.entries[iab].split_a = vec![r(ia), r(ib)];
+            sys.entries[iab].split_b = vec![];
+            sys.entries[iw].split_type = "C".into();
+            sys.entries[iw].split_a = vec![r(ia), r(ib), r(icd)];
+            sys.entries[iw].split_b = vec![r(iab), r(icd)];
+            sys.entries[iw].word_structure = vec![r(iab), r(icd)];
+            // make the long unit win over its parts
+            sys.entries[iw].cost = -2000;
+            sys.entries[iab].cost = 500;
+            two_level = Some(whole.clone());
+        }
+    }
     // inline refs must be unique *after* all rows exist
     let snapshot = sys.clone();
     for e in sys.entries.iter_mut() {
@@ -705,6 +741,7 @@ pub fn gen_world(rng: &mut Rng, opts: &WorldGenOpts) -> (WorldSpec, WorldRecords
         config,
         keys,
         has_path_rewrite: has_pr,
+        two_level,
         has_default_input: has_di,
     };
     let rec = WorldRecords {
